@@ -37,7 +37,13 @@ and hidden shared state under read-only use (wrapper types, formatting engine,
 encode path and identity, decoded representations), and one each on migrations,
 opaque pass-through, the gRPC interceptors, barriers × identity, secondary /
 multi-cause × verbose formatting, the Sentry report, the special-case formatting
-of well-known foreign errors, and the encode / decode adapters. Nothing from `/verif` was ever
+of well-known foreign errors, and the encode / decode adapters, and an eighth
+round of twelve (`F01-r8` … `F12-r8`) in which each agent got all twenty
+properties and one *group of source files that no earlier change had touched*
+(the top-level forwarders, `domains`, `oserror`, `issuelink` / `assert`,
+`withstack`, `with_hint` / `with_detail`, `safedetails`, `secondary` /
+`message.go`, the gRPC client interceptor and status helpers, `formatter.go` /
+`safe_details.go` / `reportables.go`, `adapters.go`). Nothing from `/verif` was ever
 shown. Each was **confirmed independently** before being kept
 (`tools/confirm_mutant.sh`): the patch applies to the clean tree, the library
 builds with and without the `verif` tag, the demonstration passes without the
@@ -56,7 +62,10 @@ suite is thin.
 Outcome: **every one of the {n} changes is reported as a VIOLATION by the quick
 tier of the check of the property it was written against** (seed 1). About a
 quarter of them were *missed* by the version of the monitor that existed when
-they arrived (round 1: 3, round 2: 8, round 3: 7, round 4: 2, round 5: 3, round 6: 4, round 7: 7) and led to the
+they arrived (round 1: 3, round 2: 8, round 3: 7, round 4: 2, round 5: 3, round 6: 4, round 7: 7, round 8: 4, plus one
+regression found by re-running every stored change against its own check after
+the harness had changed — `tools/diag.sh`: `K07-r5` had been caught through a
+coincidence of the generator) and led to the
 strengthenings listed below the table; none led to loosening a check.
 
 | seeded | property | change | needs, in order to manifest | caught by (signatures) |
@@ -72,6 +81,9 @@ argument values at their boundaries (empty, zero, nil, multi-line), foreign
 types with unusual method sets, and the ownership of what goes into and comes out
 of the API.
 
+* **C01** — one case in eight draws its strings from a tiny pool (equal texts
+  in adjacent layers) for a chain of 2–9 annotation wrappers whose top
+  annotation is applied twice in a row (`F07-r8`).
 * **C01 / C09 / C13** — the new kind `operrboth` (a `*net.OpError` with both a
   local and a remote address), added after `T11-r7`, exposed a genuine defect on
   the unchanged tree (finding F18, §7); the kind has weight 0 and is placed only
@@ -106,19 +118,27 @@ of the API.
   `WithDomain(e, NoDomain)` (`G05-r6`); the simulated foreign sender of an errno
   varies (another OS, the same OS on another CPU architecture, unheard of) and
   may use another number for the same error, and the first receiver is compared
-  with the origin (text, predicates, accessors) (`T12-r7`).
+  with the origin (text, predicates, accessors) (`T12-r7`); one case in ten
+  combines an errno (optionally under an os wrapper) with a `Mark` reference or
+  a `Join` branch that is one of the os sentinels, so that an OS predicate has
+  two sources (`F04-r8`).
 * **C12** — every stage is observed twice: reporting must not consume what it
-  reports (`C12-r2`).
+  reports (`C12-r2`); one case in eight ends in a third-party leaf that declares
+  a safe string through `SafeDetails()` and also has a `StackTrace()` method
+  (`F11-r8`).
 * **C13** — the builder overwrites its own slice after spreading it into `Join`
   (`C13-r2`); the `joinbare` kind, the sub-package's `join.Join` without a stack
-  layer, so that joins nest directly (`T09-r7`).
+  layer, so that joins nest directly (`T09-r7`); `%+v` of the *decoded* error
+  (printed directly for library and opaque outermost types) must have an entry
+  per visible layer at every stage (`K07-r5`, regression).
 * **C09** — `*net.OpError` with only a local address and with no address
   (`operrsrc`, `operrnone`) (`T11-r7`).
 * **C14** — a leaf and a *wrapper* type with their own `As` methods; the wrapper
   declines every target but one, and the search must go on below it (`C14-r3`).
   A value-typed, non-comparable third-party wrapper (`ncwrap`), and
   `UnwrapAll` / `Cause` compared with the end of the `UnwrapOnce` walk on every
-  chain, not only on chains of `Cause()` wrappers (`G08-r6`).
+  chain, not only on chains of `Cause()` wrappers (`G08-r6`). Every library layer
+  counts as a `Cause()` wrapper whatever the object at hand says (`F08-r8`).
 * **C15** — the error's domain (the exception module) is compared with the
   model's domain, not only with `GetDomain` of the same object (`G05-r6`); the `file:line` prefix is predicted from the per-layer stacks
   instead of from `GetOneLineSource` itself, and a third-party style leaf with
@@ -128,7 +148,8 @@ of the API.
   same answer under another stack and under foreign Cause-only / Unwrap-only
   wrappers (`C16-r2`); the slice returned by `StackTrace()` is scribbled on before
   re-observing (`C16-r3`); call sites that live, through `//line` directives, in
-  a source file whose path contains a colon (`K11-r5`).
+  a source file whose path contains a colon (`K11-r5`); call paths with 40 and
+  130 extra frames of recursion below them (`F06-r8`).
 * **C17** — the versions' leaf types have a custom leaf encoder (registered in
   the documented order) whose wire message differs from `Error()` and whose
   payload the decoder insists on (`C17-r3`); between two registrations each
